@@ -3,6 +3,7 @@
 package main
 
 import (
+	"strings"
 	"fmt"
 	"os"
 	"flag"
@@ -140,6 +141,12 @@ func c08(args []string) error {
 				break // could not move (reported through the views seen later)
 			}
 		}
+		syncInfoRejected := false
+		hx.InfoHook = func(m string) {
+			if strings.Contains(m, "Failed to verify sync info") {
+				syncInfoRejected = true
+			}
+		}
 		seen := map[[2]int]hotstuff.TimeoutMsg{} // diagnosis (HSVERIF_LOG): the accepted timeout messages by (sender, view)
 		postMortem := func(view int, pre, post [][2]int) {
 			if os.Getenv("HSVERIF_LOG") == "" {
@@ -154,9 +161,11 @@ func c08(args []string) error {
 				}
 				return k
 			}
-			if cnt(pre)+1 < q || cnt(post) != 0 || int(r.VS.View()) != view {
+			if !syncInfoRejected {
 				return
 			}
+			syncInfoRejected = false
+			_ = cnt
 			fmt.Fprintf(os.Stderr, "[postmortem] quorum for view %d consumed without leaving the view (scheme %s, n=%d, R=%d)\n", view, scheme, n, R)
 			var sigs []hotstuff.QuorumSignature
 			for k, tm := range seen {
